@@ -68,6 +68,8 @@ pub fn judge_c02(rec: &mut Recorder, c: &HistCase, ex: Exec, _hello: &Value) -> 
     let sig = |s: &str| format!("C02/native/{s}");
     for (li, l) in o.lifetimes.iter().enumerate() {
         let mut stack: BTreeMap<usize, Vec<u64>> = BTreeMap::new();
+        // call-count expectations pending in this lifetime: (target, position in its stack, n, count)
+        let mut counted: Vec<(usize, usize, u64, u64)> = vec![];
         let mut kinds: BTreeSet<String> = BTreeSet::new();
         let mut installs = 0;
         for (si, s) in l.steps.iter().enumerate() {
@@ -79,8 +81,26 @@ pub fn judge_c02(rec: &mut Recorder, c: &HistCase, ex: Exec, _hello: &Value) -> 
                     return rec.fail(&sig("install-refused"), format!("lifetime {li} step {si}: legal installation {} on {} panicked: {p}; case {c:?}", s.kind, t.name));
                 }
                 stack.entry(s.t).or_default().push(s.expected_value);
+                if let Some((_, n)) = s.times {
+                    counted.push((s.t, stack[&s.t].len() - 1, n as u64, 0));
+                }
             } else {
                 let expect = stack.get(&s.t).and_then(|v| v.last().copied()).unwrap_or(t.orig);
+                // is the installation in effect a counted one?
+                let depth = stack.get(&s.t).map(|v| v.len()).unwrap_or(0);
+                if let Some(c) = counted.iter_mut().find(|c| c.0 == s.t && c.1 + 1 == depth) {
+                    let over = c.3 >= c.2;
+                    c.3 += 1;
+                    if over {
+                        match &s.call_panic {
+                            Some(p) if p.contains("more times than expected") => continue,
+                            other => return rec.fail(&sig("over-called-fake-did-not-panic"), format!("lifetime {li} step {si}: call #{} of {} against times: {} gave {:?} / {other:?}; case {c:?}", c.3, t.name, c.2, s.value)),
+                        }
+                    }
+                }
+                if let Some(p) = &s.call_panic {
+                    return rec.fail(&sig("call-panicked-while-alive"), format!("lifetime {li} step {si}: calling {} panicked: {p}; case {c:?}", t.name));
+                }
                 match s.value {
                     None => {
                         return rec.fail(&sig("entry-undecodable-while-alive"), format!("lifetime {li} step {si}: entry of {} does not lead anywhere known ({}) ; case {c:?}", t.name, s.decode_end));
@@ -93,8 +113,14 @@ pub fn judge_c02(rec: &mut Recorder, c: &HistCase, ex: Exec, _hello: &Value) -> 
                 }
             }
         }
+        // an unmet call-count expectation legitimately panics at a normal scope exit; restoration
+        // is demanded all the same (checked below)
+        let unmet = counted.iter().any(|c| c.2 != c.3);
         if let Some(p) = &l.drop_panicked {
-            return rec.fail(&sig("scope-exit-panicked"), format!("lifetime {li} ({}): {p}; case {c:?}", l.exit));
+            if !(unmet && l.exit == "normal" && p.contains("expected to be called")) {
+                return rec.fail(&sig("scope-exit-panicked"), format!("lifetime {li} ({}): {p}; case {c:?}", l.exit));
+            }
+            rec.class("exit/verification-panic-with-fakes-installed");
         }
         for (ti, bytes, val) in &l.post {
             let t = &o.targets[*ti];
@@ -113,7 +139,8 @@ pub fn judge_c02(rec: &mut Recorder, c: &HistCase, ex: Exec, _hello: &Value) -> 
         for k in &kinds {
             rec.class(k);
         }
-        if repeated || wide || unwound {
+        let verdict_exit = l.drop_panicked.is_some() && installs >= 2;
+        if repeated || wide || unwound || verdict_exit {
             rec.nontrivial(&(li, &c.lifetimes[li % c.lifetimes.len()], &c.synth));
         }
     }
